@@ -142,6 +142,12 @@ class _FunctionCall(object):
                 if val is not None:
                     ctx.in_object[i] = val
 
+            # an argument that was left out runs with its declared default,
+            # like it does when the call comes over the wire.
+            for i, v in enumerate(_type_info.values()):
+                if ctx.in_object[i] is None and v.Attributes.default is not None:
+                    ctx.in_object[i] = v.Attributes.default
+
             if ctx.descriptor.body_style == BODY_STYLE_BARE:
                 ctx.in_object = ctx.descriptor.in_message \
                                       .get_serialization_instance(ctx.in_object)
